@@ -54,7 +54,9 @@ def Typ.code : Typ → Nat | .event => 0 | .scalar => 1 | .delta => 2
 /-- what the audition sends to the collector / the judge -/
 inductive Out
   | obs (ts : Rat) (typ : Typ) (v : VarName) (val : Val)
-  | rep (ts : Rat) (auditor : String) (r : Rep)
+  /-- `lbl` is a ghost field (never printed, never compared): the table label that was fired,
+  0 = predicate true, 1 = predicate not true, 2 = end of period.  Used by the C02 theorems. -/
+  | rep (ts : Rat) (auditor : String) (r : Rep) (lbl : Nat)
   | repErr (ts : Rat) (auditor : String)          -- evaluation error of the predicate (resErr)
   | start (auditor : String)                      -- "<a> starts auditing"
   | stop (auditor : String)                       -- "<a> stops auditing"
@@ -106,7 +108,7 @@ def hasDeps (s : St) (e : Expr) : Bool := e.deps.all s.activated
 /-- `processFsmStateChange` -/
 def fireExpect (s : St) (ts : Rat) (name : String) (T : Table) (lbl : Nat) : St :=
   (setAud s name { s.aud name with fsm := (T.fire (s.aud name).fsm lbl).1 }).emit
-    (.rep ts name (T.fire (s.aud name).fsm lbl).2)
+    (.rep ts name (T.fire (s.aud name).fsm lbl).2 lbl)
 
 def valTyp : Val → Typ
   | .sc (.num _) => .scalar
@@ -169,13 +171,19 @@ def startPeriod (s : St) (m : Member) : St :=
       fsm := (match m.expect with | some (T, _) => T.start | none => (s.aud m.name).fsm) }).emit
     (.start m.name)
 
+/-- the end-of-period judgement: the `end` label -/
+def endJudge (s : St) (ts : Rat) (m : Member) : St :=
+  match m.expect with
+  | some (T, _) => fireExpect s ts m.name T 2
+  | none => s
+
+/-- "<a> stops auditing" -/
+def stopPeriod (s : St) (m : Member) : St :=
+  (setAud s m.name { s.aud m.name with auditing := false }).emit (.stop m.name)
+
 /-- period end: the `end` label, "<a> stops auditing" -/
 def endPeriod (s : St) (ts : Rat) (m : Member) : St :=
-  if s.abort.isSome then s else
-  let s4 := match m.expect with
-    | some (T, _) => fireExpect s ts m.name T 2
-    | none => s
-  (setAud s4 m.name { s4.aud m.name with auditing := false }).emit (.stop m.name)
+  if s.abort.isSome then s else stopPeriod (endJudge s ts m) m
 
 /-- `checkEventForAuditor` -/
 def visit (c : Cfg) (final : Bool) (ts : Rat) (s : St) (m : Member) : St :=
